@@ -712,3 +712,21 @@ PROPS["C19"]["oracle_fields"] = PROPS["C19"]["oracle_fields"] + ["restore"]
 
 for _pid in ("C12", "C16", "C13", "C01", "C09"):
     PROPS[_pid]["oracle_fields"] = (PROPS[_pid].get("oracle_fields") or []) + ["pid", "gid"] if PROPS[_pid].get("oracle_fields") is not None else None
+
+# --------------------------------------------------------------------------------------------
+# hash-map iteration order (Props/IterOrder.lean): the model iterates in key order, Rust in hash order – proved irrelevant
+# --------------------------------------------------------------------------------------------
+_ITER = ["Crdt.IterOrder." + t for t in ["fold_order_free", "orswot_applyRm_order_free", "orswot_applyDeferred_order_free", "orswot_apply_order_free", "orswot_merge_order_free",
+         "orswot_resetRemove_order_free", "orswot_validateMerge_verdict_order_free", "map_applyDeferred_order_free", "map_apply_order_free", "map_merge_order_free",
+         "map_resetRemove_order_free", "rrComm_instances", "old_resetRemove_order_dependent", "validateMerge_payload_order_dependent", "map_needs_rrComm"]]
+for _pid in ("C01", "C02", "C03", "C04", "C05", "C07", "C08", "C09", "C17", "C18", "C20"):
+    PROPS[_pid]["lean_targets"] = PROPS[_pid]["lean_targets"] + ["CrdtModel.Props.IterOrder"]
+    PROPS[_pid]["required_theorems"] = PROPS[_pid]["required_theorems"] + _ITER
+    PROPS[_pid]["explanation"] += (" Iteration order (Props/IterOrder.lean): Orswot.entries/deferred and Map.deferred are HashMaps iterated in unspecified order by the crate and in key order by the model; every such loop "
+                                   "(apply_rm, apply_deferred, apply, merge incl. nested iterations, reset_remove) is re-stated with the iterated sequence as an argument and proved to give the model's result for EVERY permutation "
+                                   "(all states for Orswot; for Map under commutation of the value type's reset_remove, proved for MVReg / Orswot / nested Map) – only the payload of DoubleSpentDot is order-dependent (verdict order-free).")
+TRUSTED_BASE[:] = [t.replace("u64/usize overflow, allocation, HashMap iteration order, sha3 are outside the model",
+                              "u64/usize overflow, allocation, sha3 are outside the model; HashMap iteration order is abstracted by the model (key order) and PROVED irrelevant for every state-changing loop (Props/IterOrder.lean)") for t in TRUSTED_BASE]
+NOTE = NOTE.replace("u64 overflow, HashMap iteration order, sha3 and allocation are outside the model.", "u64 overflow, sha3 and allocation are outside the model; HashMap iteration order is proved irrelevant (Props/IterOrder.lean).")
+for _k in MANIFEST_TEXT:
+    MANIFEST_TEXT[_k]["note"] = MANIFEST_TEXT[_k]["note"].replace("u64 overflow, HashMap iteration order, sha3 and allocation are outside the model.", "u64 overflow, sha3 and allocation are outside the model; HashMap iteration order is proved irrelevant (Props/IterOrder.lean).")
